@@ -215,6 +215,9 @@ class CallTracer:
         self.logger = logger
         self.traces: Dict[FrameType, CallTrace] = {}
         self.sample_rate = sample_rate
+        # a generator of our own: drawing from the interpreter-wide one would change
+        # the random numbers the traced program itself gets
+        self._random = random.Random()
         # id(code) -> (code, function). Code objects compare equal across files when
         # their source is identical, so the key is the identity; the code object is
         # kept in the value so that its id cannot be reused while it is cached.
@@ -230,7 +233,7 @@ class CallTracer:
         return entry[1]
 
     def handle_call(self, frame: FrameType) -> None:
-        if self.sample_rate and random.randrange(self.sample_rate) != 0:
+        if self.sample_rate and self._random.randrange(self.sample_rate) != 0:
             return
         func = self._get_func(frame)
         if func is None:
